@@ -286,11 +286,17 @@ theorem forLive_of_stable {i : Name} {ok : Bool} {b : Expr} {body : List Stmt} {
 
 /-! ## Python's `for` over a block of the fragment -/
 
+theorem evalExpr_var_of_none {S : Sem V} {t : Name} (h : S.attrLit t = none) (ρ : Store V) :
+    evalExpr S ρ (.var t) = ρ t := by
+  unfold evalExpr
+  cases ρ t <;> simp [h]
+
 theorem iterFor_run (S : Sem V) (fuel : Nat) (i : Name) {body : List Stmt} (hi : ifBlock body = true)
+    (hF : TFree S (targetsBlock body))
     {d : VSet} (hd : assignedBlock body = some d) :
-    ∀ (left k : Nat) {ρ : Store V} {o : Outcome V}, AllT ρ →
+    ∀ (left k : Nat) {ρ : Store V} {o : Outcome V}, AllT S ρ →
       iterFor S i (fun r => evalBlock S fuel body r) left k ρ = some o →
-      ∃ ρ', o = .normal ρ' ∧ AllT ρ' ∧ (∀ x, ρ x ≠ none → ρ' x ≠ none)
+      ∃ ρ', o = .normal ρ' ∧ AllT S ρ' ∧ (∀ x, ρ x ≠ none → ρ' x ≠ none)
         ∧ (∀ x, x ∉ d → x ≠ i → ρ' x = ρ x) := by
   intro left
   induction left with
@@ -305,7 +311,7 @@ theorem iterFor_run (S : Sem V) (fuel : Nat) (i : Name) {body : List Stmt} (hi :
     cases hb : evalBlock S fuel body (ρ.set i (.t (S.ofNat k))) with
     | none => simp [hb] at h
     | some o1 =>
-      obtain ⟨ρ1, rfl, r1⟩ := ifBlock_run S fuel body hi (hρ.set i (S.ofNat k)) hb
+      obtain ⟨ρ1, rfl, r1⟩ := ifBlock_run S fuel body hi hF (hρ.set i (S.ofNat k)) hb
       simp only [hb] at h
       obtain ⟨ρ2, ho, a2, d2, f2⟩ := ih (k + 1) r1.allT h
       refine ⟨ρ2, ho, a2, ?_, ?_⟩
@@ -400,7 +406,7 @@ theorem loopParams_eq : ∀ (state : List Name) (L0 : Locals) {L1 : Locals} {ps 
     exact ⟨by rw [r1]; rfl, by simp [r2]⟩
 
 theorem loopInits_val (L : Locals) : ∀ (state : List Name) {inits : List Name}
-    {ns : List Node} {s s' : St}, FreeOf L state → loopInits L state s = .ok ((inits, ns), s') →
+    {ns : List Node} {s s' : St}, FreeOf S L state → loopInits L state s = .ok ((inits, ns), s') →
     ns = [] ∧ s' = s ∧ All2 (fun n x => lookup L x = some (.val n)) inits state := by
   intro state
   induction state with
@@ -426,7 +432,7 @@ theorem loopInits_val (L : Locals) : ∀ (state : List Name) {inits : List Name}
     | none => simp only [hl] at h1; exact (failM_ok h1).elim
     | some b =>
       cases b with
-      | attr p ty => exact absurd hl (hA x List.mem_cons_self p ty)
+      | attr p ty => exact absurd hl ((hA x List.mem_cons_self).1 p ty)
       | val n =>
         simp only [hl] at h1
         obtain ⟨rfl, rfl, rfl⟩ := toOnnxVar_val h1
@@ -437,7 +443,7 @@ theorem loopInits_val (L : Locals) : ∀ (state : List Name) {inits : List Name}
 theorem loopOutputs_sim (S : Sem V) (fuel : Nat) (hId : ∀ v, S.op "" "Identity" [some v] [] = some [v])
     {ρ' : Store V} (L2 : Locals) :
     ∀ (vs : List Name) (sofar : List Node) (outs : List Name) {env : Env V} {s s' : St} {os : List Name}
-      {ns : List Node}, VisOK s.used L2 → FreeOf L2 vs →
+      {ns : List Node}, VisOK s.used L2 → FreeOf S L2 vs →
       (∀ pv, pv ∈ vs → ∀ n, lookup L2 pv = some (.val n) → ∃ v, env n = some v ∧ ρ' pv = some (.t v)) →
       loopOutputs L2 vs sofar outs s = .ok ((os, ns), s') →
       ∃ env', evalNodes S fuel env ns = some env' ∧ Ext env env' s s' ∧ s'.castable = s.castable ∧ Mono s s'
@@ -452,7 +458,7 @@ theorem loopOutputs_sim (S : Sem V) (fuel : Nat) (hId : ∀ v, S.op "" "Identity
     exact ⟨env, evalNodes_nil _ _ _, Ext.refl _ _, rfl, Mono.refl _, All2.nil⟩
   | cons pv rest ih =>
     intro sofar outs env s s' os ns hL hA hf h
-    have hAr : FreeOf L2 rest := hA.sub (fun y hy => List.mem_cons_of_mem _ hy)
+    have hAr : FreeOf S L2 rest := hA.sub (fun y hy => List.mem_cons_of_mem _ hy)
     unfold loopOutputs at h
     have restf : ∀ {env1 : Env V} {s1 : St}, Ext env env1 s s1 → Mono s s1 →
         ∀ q, q ∈ rest → ∀ n, lookup L2 q = some (.val n) → ∃ v, env1 n = some v ∧ ρ' q = some (.t v) := by
@@ -467,7 +473,7 @@ theorem loopOutputs_sim (S : Sem V) (fuel : Nat) (hId : ∀ v, S.op "" "Identity
     | none => simp only [hl] at h1; exact (failM_ok h1).elim
     | some b =>
       cases b with
-      | attr p ty => exact absurd hl (hA pv List.mem_cons_self p ty)
+      | attr p ty => exact absurd hl ((hA pv List.mem_cons_self).1 p ty)
       | val n =>
         simp only [hl] at h1
         obtain ⟨rfl, rfl, rfl⟩ := toOnnxVar_val h1
@@ -661,10 +667,10 @@ theorem EvFrom.seq {S : Sem V} {env env1 env2 : Env V} {a b : List Node}
 how it runs, that its translation simulates it, its castable bookkeeping, that it has no `break` at its top
 level, and how liveness / exposed uses split over it. -/
 structure BodyFacts (S : Sem V) (fuel : Nat) (body : List Stmt) (F : VSet) : Prop where
-  run : ∀ {ρ : Store V} {o : Outcome V}, AllT ρ → evalBlock S fuel body ρ = some o →
-    ∃ ρ1, o = .normal ρ1 ∧ RunOK ρ ρ1 (assignedBlock body)
+  run : ∀ {ρ : Store V} {o : Outcome V}, AllT S ρ → evalBlock S fuel body ρ = some o →
+    ∃ ρ1, o = .normal ρ1 ∧ RunOK S ρ ρ1 (assignedBlock body)
   sim : ∀ {L L' : Locals} {ρ ρ1 : Store V} {env : Env V} {s s' : St} {ns : List Node},
-    FreeOf L (targetsBlock body) → Inv S (liveInBlock body F) ρ L env s →
+    FreeOf S L (targetsBlock body) → Inv S (liveInBlock body F) ρ L env s →
     evalBlock S fuel body ρ = some (.normal ρ1) →
     convStmts L body F s = .ok ((L', ns), s') →
     ∃ env', EvFrom S env ns env' ∧ Inv S F ρ1 L' env' s' ∧ Ext env env' s s' ∧ Mono s s'
@@ -760,15 +766,17 @@ theorem convLoopBody_nobrk : ∀ (ss : List Stmt) (L : Locals) (lo : VSet) {L' :
     rfl
 
 theorem bodyFacts_of_ifBlock (S : Sem V) (fuel : Nat) (hConst : ∀ l, ∃ c, constOf S l = some c)
-    (hId : ∀ v, S.op "" "Identity" [some v] [] = some [v]) {body : List Stmt} (F : VSet)
-    (h : ifBlock body = true) : BodyFacts S fuel body F where
-  run := fun hρ he => ifBlock_run S fuel body h hρ he
+    (hId : ∀ v, S.op "" "Identity" [some v] [] = some [v])
+    (hTL : ∀ l c b, constOf S l = some c → truthPV S (.py l) = some b → S.truth c = some b) {body : List Stmt} (F : VSet)
+    (h : ifBlock body = true) (hF : TFree S (targetsBlock body)) : BodyFacts S fuel body F where
+  run := fun hρ he => ifBlock_run S fuel body h hF hρ he
   sim := fun hfree hinv he hc => by
-    obtain ⟨env', ev, inv, x, m⟩ := block_step S fuel hConst hId body F h hfree hinv he hc
+    obtain ⟨env', ev, inv, x, m⟩ := block_step S fuel hConst hId hTL body F h hfree hinv he hc
     exact ⟨env', EvFrom.of_eval ev, inv, x, m⟩
   cast := fun hc => ifBlock_cast _ body F h hc
   nobrk := by
     intro st hst
+    clear hF
     induction body with
     | nil => cases hst
     | cons s0 ss ih =>
@@ -785,8 +793,8 @@ theorem bodyFacts_of_ifBlock (S : Sem V) (fuel : Nat) (hConst : ∀ l, ∃ c, co
   mono := fun hz hx => live_mono_block h hz hx
 
 /-- What stays true of the Python store over the iterations of a loop, relative to the store `ρ` at entry. -/
-structure Along (ρ ρk : Store V) (d : VSet) (i : Name) : Prop where
-  allT : AllT ρk
+structure Along (S : Sem V) (ρ ρk : Store V) (d : VSet) (i : Name) : Prop where
+  allT : AllT S ρk
   dom : ∀ x, ρ x ≠ none → ρk x ≠ none
   frame : ∀ x, x ∉ d → x ≠ i → ρk x = ρ x
 
@@ -797,7 +805,7 @@ theorem for_step (S : Sem V) (fuel : Nat) (hConst : ∀ l, ∃ c, constOf S l = 
     (hNat : ∀ k c, constOf S (.int k) = some c → S.natOf c = some k.toNat)
     (hB : BodyFacts S fuel body (loopBodyLo (.for_ i true b body) lo))
     (hd : assignedBlock body = some d)
-    (hid : i ∉ d) (hfree : FreeOf L (targetsBlock body))
+    (hid : i ∉ d) (hiF : S.attrLit i = none ∧ i ∉ S.pyVars) (hfree : FreeOf S L (targetsBlock body))
     (hF : ForLiveE i body lo (loopBodyLo (.for_ i true b body) lo))
     (hinv : Inv S (liveInStmt (.for_ i true b body) lo) ρ L env s)
     (he : evalStmt S fuel (.for_ i true b body) ρ = some (.normal ρ'))
@@ -873,7 +881,7 @@ theorem for_step (S : Sem V) (fuel : Nat) (hConst : ∀ l, ∃ c, constOf S l = 
         mbind h5 with outs s6 h5d
         obtain ⟨q1, q2⟩ := pure_ok h5
         cases q1; subst q2
-        have hfreeS : FreeOf L state := by
+        have hfreeS : FreeOf S L state := by
           intro x hx
           have hxd : x ∈ d := by
             have hs' := hs
@@ -958,10 +966,10 @@ theorem for_step (S : Sem V) (fuel : Nat) (hConst : ∀ l, ∃ c, constOf S l = 
         have hiv3 : iv ∈ s3.used := (f3.2 iv List.mem_cons_self).2
         have hps3 : ∀ p, p ∈ ps → p ∈ s3.used := fun p hp => (f3.2 p (List.mem_cons_of_mem _ hp)).2
         obtain ⟨hvis1, _⟩ := loopEnter_scope (vis := s3.used) h3 (hinv.vis.mono k03.mono) hiv3 hps3
-        have hna1 : NoAttrBind L1 := by
+        have hna1 : NoAttrBind S L1 := by
           rw [hL1eq]
-          exact NoAttrBind.bindVals (NoAttrBind.bindVal
-            (fun x p ty hl => hinv.noattr x p ty (by rw [← lookup_push]; exact hl)) i iv) _ _
+          exact NoAttrBind.bindValsT (NoAttrBind.bindVal hinv.noattr.push i iv hiF.1) _ _
+            (TFree.of_free hinv.noattr hfreeS)
         have hlk_old : ∀ y, y ∉ state → y ≠ i → lookup L1 y = lookup L y := by
           intro y hy hyi
           rw [hL1eq, lookup_bindVals_notin _ _ _ hy, lookup_bindVar_ne hyi, lookup_push]
@@ -974,7 +982,7 @@ theorem for_step (S : Sem V) (fuel : Nat) (hConst : ∀ l, ∃ c, constOf S l = 
         have k4 := hB.cast h4
         have k4a := genUnique_cast h5a
         -- the invariant at the start of an iteration
-        have mkInv : ∀ (k : Nat) (cnd : V) (st : List V) (ρk : Store V), Along ρ ρk d i →
+        have mkInv : ∀ (k : Nat) (cnd : V) (st : List V) (ρk : Store V), Along S ρ ρk d i →
             All2 (fun v x => ρk x = some (PV.t v)) st state →
             Inv S (liveInBlock body F) (ρk.set i (.t (S.ofNat k))) L1
               (Env.setMany env1 (iv :: condIn :: ps) (S.ofNat k :: cnd :: st)) s3 := by
@@ -1031,13 +1039,13 @@ theorem for_step (S : Sem V) (fuel : Nat) (hConst : ∀ l, ∃ c, constOf S l = 
               · rw [hlk_old y hys hyi] at hl
                 exact hal.dom y (hinv.bound y m hl)
         -- the iterations
-        have iter : ∀ (left k : Nat) (ρk ρf : Store V) (st : List V), Along ρ ρk d i →
+        have iter : ∀ (left k : Nat) (ρk ρf : Store V) (st : List V), Along S ρ ρk d i →
             All2 (fun v x => ρk x = some (PV.t v)) st state →
             iterFor S i (fun r => evalBlock S fuel body r) left k ρk = some (.normal ρf) →
             ∃ G0, ∀ (G a : Nat), G0 ≤ G → left + 1 ≤ a →
             ∃ stf, loopIter S (loopBodyFn S (fun e => evalNodes S G e (bn ++ cnode :: ns3)) env1
                 (iv :: condIn :: ps) (condOut :: os)) a (some left) k (S.ofBool true) st = some stf
-              ∧ All2 (fun v x => ρf x = some (PV.t v)) stf state ∧ Along ρ ρf d i := by
+              ∧ All2 (fun v x => ρf x = some (PV.t v)) stf state ∧ Along S ρ ρf d i := by
           intro left
           induction left with
           | zero =>
@@ -1079,7 +1087,7 @@ theorem for_step (S : Sem V) (fuel : Nat) (hConst : ∀ l, ∃ c, constOf S l = 
                 cases hq : ρ1 pv with
                 | none => exact absurd hq (invC.bound pv m hl)
                 | some q =>
-                  obtain ⟨v, rfl⟩ := invC.allT pv q hq
+                  obtain ⟨v, rfl⟩ := invC.allT pv q hq (hfreeS pv hpv).2
                   obtain ⟨m', hl', hr⟩ := invC.rel pv _ (restrict_some.mpr ⟨hstF pv hpv, hq⟩)
                   rw [hl] at hl'
                   cases hl'
@@ -1102,7 +1110,7 @@ theorem for_step (S : Sem V) (fuel : Nat) (hConst : ∀ l, ∃ c, constOf S l = 
                   simpa using this
                 simp only [this, Env.getMany, List.mapM_cons, hcoD, hrs]
                 rfl
-              have hal1 : Along ρ ρ1 d i :=
+              have hal1 : Along S ρ ρ1 d i :=
                 ⟨run1.allT,
                  fun x hx => run1.dom x (by
                    unfold Store.set
@@ -1131,13 +1139,13 @@ theorem for_step (S : Sem V) (fuel : Nat) (hConst : ∀ l, ∃ c, constOf S l = 
           cases hq : ρ x with
           | none => exact absurd hq (hinv.bound x m hl)
           | some q =>
-            obtain ⟨v, rfl⟩ := hinv.allT x q hq
+            obtain ⟨v, rfl⟩ := hinv.allT x q hq (hfreeS x hx).2
             obtain ⟨m', hl', hr⟩ := hinv.rel x _ (restrict_some.mpr ⟨hFlive x (hstF x hx), hq⟩)
             rw [hl] at hl'
             cases hl'
             exact ⟨v, by rw [x1.envSame m (hinv.vis.lookup hl)]; exact hr.1, rfl⟩
         obtain ⟨st0, hst0, hR0⟩ := inits_values hinits hf0
-        have hal0 : Along ρ ρ d i := ⟨hinv.allT, fun _ hx => hx, fun _ _ _ => rfl⟩
+        have hal0 : Along S ρ ρ d i := ⟨hinv.allT, fun _ hx => hx, fun _ _ _ => rfl⟩
         obtain ⟨Gi, hiter⟩ := iter n 0 ρ ρ' st0 hal0 hR0 he
         obtain ⟨GG, hGG1, hGG2, hGG3⟩ : ∃ GG, fuel ≤ GG ∧ Gi ≤ GG ∧ n + 1 ≤ GG :=
           ⟨max (max fuel Gi) (n + 1), by omega, by omega, by omega⟩
@@ -1161,7 +1169,7 @@ theorem for_step (S : Sem V) (fuel : Nat) (hConst : ∀ l, ∃ c, constOf S l = 
         · have ev1' := evalNodes_mono S ns0 fuel (GG + 1) _ _
             (by omega) ev1
           simpa using evalNodes_seq ev1' evLoop
-        · refine ⟨hsc.2.mono (fun y hy => after_in_used hfr hy), hinv.noattr.bindVals _ _,
+        · refine ⟨hsc.2.mono (fun y hy => after_in_used hfr hy), hinv.noattr.bindValsT _ _ (TFree.of_free hinv.noattr hfreeS),
             k06.sub hinv.cast, halF.allT, ?_, ?_⟩
           · intro y q hy
             obtain ⟨hm, hq⟩ := restrict_some.mp hy
@@ -1220,11 +1228,20 @@ theorem assigned_brk : ∀ (pre : List Stmt) (t : Name), assignedBlock (pre ++ b
   | nil => simp [brkTail, assignedBlock, assignedStmt, vunion]
   | cons st ss ih => simp only [List.cons_append, assignedBlock, ih]
 
-theorem targets_brk : ∀ (pre : List Stmt) (t : Name), targetsBlock (pre ++ brkTail t) = targetsBlock pre := by
+theorem targets_brk : ∀ (pre : List Stmt) (t : Name), targetsBlock (pre ++ brkTail t) = targetsBlock pre ++ [t] := by
   intro pre t
   induction pre with
-  | nil => simp [brkTail, targetsBlock, targetsStmt]
-  | cons st ss ih => simp only [List.cons_append, targetsBlock, ih]
+  | nil => simp [brkTail, targetsBlock, targetsStmt, bareVar]
+  | cons st ss ih => simp only [List.cons_append, targetsBlock, ih, List.append_assoc]
+
+theorem tfree_brk {S : Sem V} {pre : List Stmt} {t : Name} (hp : TFree S (targetsBlock pre))
+    (ht : S.attrLit t = none ∧ t ∉ S.pyVars) : TFree S (targetsBlock (pre ++ brkTail t)) := by
+  intro x hx
+  rw [targets_brk] at hx
+  rcases List.mem_append.mp hx with h' | h'
+  · exact hp x h'
+  · simp only [List.mem_singleton] at h'
+    rw [h']; exact ht
 
 theorem live_rel_brk {pre : List Stmt} {t : Name} (hp : ifBlock pre = true) {X : VSet} {y : Name}
     (h : y ∈ liveInBlock (pre ++ brkTail t) X) : y ∈ liveInBlock (pre ++ brkTail t) [] ∨ y ∈ X := by
@@ -1290,20 +1307,24 @@ theorem evalBlock_append (S : Sem V) (fuel : Nat) : ∀ (a b : List Stmt) (ρ : 
 
 /-- One run of a body `pre; if t: break`. -/
 theorem brkBody_run (S : Sem V) (fuel : Nat) {pre : List Stmt} {t : Name} (hp : ifBlock pre = true)
-    {ρ : Store V} {o : Outcome V} (hρ : AllT ρ)
+    (hF : TFree S (targetsBlock (pre ++ brkTail t)))
+    {ρ : Store V} {o : Outcome V} (hρ : AllT S ρ)
     (h : evalBlock S fuel (pre ++ brkTail t) ρ = some o) :
-    ∃ ρ1 v bk, evalBlock S fuel pre ρ = some (.normal ρ1) ∧ RunOK ρ ρ1 (assignedBlock pre) ∧
+    ∃ ρ1 v bk, evalBlock S fuel pre ρ = some (.normal ρ1) ∧ RunOK S ρ ρ1 (assignedBlock pre) ∧
       ρ1 t = some (.t v) ∧ S.truth v = some bk ∧ o = (if bk then .broke ρ1 else .normal ρ1) := by
   rw [evalBlock_append] at h
   cases hb : evalBlock S fuel pre ρ with
   | none => simp [hb] at h
   | some o1 =>
-    obtain ⟨ρ1, rfl, run1⟩ := ifBlock_run S fuel pre hp hρ hb
-    simp only [hb, brkTail, evalBlock, evalStmt, evalExpr] at h
+    have hFp : TFree S (targetsBlock pre) := hF.sub (fun x hx => by rw [targets_brk]; exact List.mem_append_left _ hx)
+    have htl : S.attrLit t = none := (hF t (by rw [targets_brk]; simp)).1
+    have htP : t ∉ S.pyVars := (hF t (by rw [targets_brk]; simp)).2
+    obtain ⟨ρ1, rfl, run1⟩ := ifBlock_run S fuel pre hp hFp hρ hb
+    simp only [hb, brkTail, evalBlock, evalStmt, evalExpr_var_of_none htl] at h
     cases ht : ρ1 t with
     | none => simp [ht] at h
     | some cv =>
-      obtain ⟨v, rfl⟩ := run1.allT t cv ht
+      obtain ⟨v, rfl⟩ := run1.allT t cv ht htP
       simp only [ht, truthPV] at h
       cases hv : S.truth v with
       | none => simp [hv] at h
@@ -1314,8 +1335,9 @@ theorem brkBody_run (S : Sem V) (fuel : Nat) {pre : List Stmt} {t : Name} (hp : 
         | true => simp only [if_true] at h ⊢; injection h with h; exact h.symm
         | false => simp only [Bool.false_eq_true, if_false] at h ⊢; injection h with h; exact h.symm
 
-theorem iterForB_run (S : Sem V) (fuel : Nat) (i : Name) {pre : List Stmt} {t : Name} (hi : ifBlock pre = true) :
-    ∀ (left k : Nat) {ρ : Store V} {o : Outcome V}, AllT ρ →
+theorem iterForB_run (S : Sem V) (fuel : Nat) (i : Name) {pre : List Stmt} {t : Name} (hi : ifBlock pre = true)
+    (hF : TFree S (targetsBlock (pre ++ brkTail t))) :
+    ∀ (left k : Nat) {ρ : Store V} {o : Outcome V}, AllT S ρ →
       iterFor S i (fun r => evalBlock S fuel (pre ++ brkTail t) r) left k ρ = some o → ∃ ρ', o = .normal ρ' := by
   intro left
   induction left with
@@ -1330,7 +1352,7 @@ theorem iterForB_run (S : Sem V) (fuel : Nat) (i : Name) {pre : List Stmt} {t : 
     cases hb : evalBlock S fuel (pre ++ brkTail t) (ρ.set i (.t (S.ofNat k))) with
     | none => simp [hb] at h
     | some o1 =>
-      obtain ⟨ρ1, v, bk, _, run1, _, _, rfl⟩ := brkBody_run S fuel hi (hρ.set i (S.ofNat k)) hb
+      obtain ⟨ρ1, v, bk, _, run1, _, _, rfl⟩ := brkBody_run S fuel hi hF (hρ.set i (S.ofNat k)) hb
       simp only [hb] at h
       cases bk with
       | true => simp only [if_true] at h; cases h; exact ⟨ρ1, rfl⟩
@@ -1387,12 +1409,13 @@ theorem convLoopBody_brk (t : Name) : ∀ (pre : List Stmt) (L : Locals) (lo : V
 /-- The same for a body `pre; if t: break`: `cond_out = Not(t)`, and the iteration stops after the first body run
 that leaves `t` true, keeping that run's state. -/
 theorem forB_step (S : Sem V) (fuel : Nat) (hConst : ∀ l, ∃ c, constOf S l = some c)
-    (hId : ∀ v, S.op "" "Identity" [some v] [] = some [v]) (hT : S.truth (S.ofBool true) = some true)
+    (hId : ∀ v, S.op "" "Identity" [some v] [] = some [v])
+    (hTL : ∀ l c b, constOf S l = some c → truthPV S (.py l) = some b → S.truth c = some b) (hT : S.truth (S.ofBool true) = some true)
     (hNot : ∀ v bk, S.truth v = some bk → ∃ w, S.op "" "Not" [some v] [] = some [w] ∧ S.truth w = some (!bk))
     {i : Name} {b : Expr} {pre body : List Stmt} {t : Name} {lo d : VSet} {ρ ρ' : Store V} {L L' : Locals}
     {env : Env V} {s s' : St} {ns : List Node} (hbd : body = pre ++ brkTail t)
     (hNat : ∀ k c, constOf S (.int k) = some c → S.natOf c = some k.toNat) (hp : ifBlock pre = true) (hd : assignedBlock pre = some d)
-    (hid : i ∉ d) (hfree : FreeOf L (targetsBlock pre))
+    (hid : i ∉ d) (hiF : S.attrLit i = none ∧ i ∉ S.pyVars) (htAttr : S.attrLit t = none ∧ t ∉ S.pyVars) (hfree : FreeOf S L (targetsBlock pre))
     (hF : ForLive i body lo (loopBodyLo (.for_ i true b body) lo))
     (hinv : Inv S (liveInStmt (.for_ i true b body) lo) ρ L env s)
     (he : evalStmt S fuel (.for_ i true b body) ρ = some (.normal ρ'))
@@ -1478,7 +1501,7 @@ theorem forB_step (S : Sem V) (fuel : Nat) (hConst : ∀ l, ∃ c, constOf S l =
         mbind h5 with outs s6 h5d
         obtain ⟨q1, q2⟩ := pure_ok h5
         cases q1; subst q2
-        have hfreeS : FreeOf L state := by
+        have hfreeS : FreeOf S L state := by
           intro x hx
           have hxd : x ∈ d := by
             have hs' := hs
@@ -1564,10 +1587,10 @@ theorem forB_step (S : Sem V) (fuel : Nat) (hConst : ∀ l, ∃ c, constOf S l =
         have hiv3 : iv ∈ s3.used := (f3.2 iv List.mem_cons_self).2
         have hps3 : ∀ p, p ∈ ps → p ∈ s3.used := fun p hp => (f3.2 p (List.mem_cons_of_mem _ hp)).2
         obtain ⟨hvis1, _⟩ := loopEnter_scope (vis := s3.used) h3 (hinv.vis.mono k03.mono) hiv3 hps3
-        have hna1 : NoAttrBind L1 := by
+        have hna1 : NoAttrBind S L1 := by
           rw [hL1eq]
-          exact NoAttrBind.bindVals (NoAttrBind.bindVal
-            (fun x p ty hl => hinv.noattr x p ty (by rw [← lookup_push]; exact hl)) i iv) _ _
+          exact NoAttrBind.bindValsT (NoAttrBind.bindVal hinv.noattr.push i iv hiF.1) _ _
+            (TFree.of_free hinv.noattr hfreeS)
         have hlk_old : ∀ y, y ∉ state → y ≠ i → lookup L1 y = lookup L y := by
           intro y hy hyi
           rw [hL1eq, lookup_bindVals_notin _ _ _ hy, lookup_bindVar_ne hyi, lookup_push]
@@ -1580,7 +1603,7 @@ theorem forB_step (S : Sem V) (fuel : Nat) (hConst : ∀ l, ∃ c, constOf S l =
         have k4 := ifBlock_cast L1 pre (vunion F [t]) hp h4
         have k4a := genUnique_cast h5a
         -- the invariant at the start of an iteration
-        have mkInv : ∀ (k : Nat) (cnd : V) (st : List V) (ρk : Store V), Along ρ ρk d i →
+        have mkInv : ∀ (k : Nat) (cnd : V) (st : List V) (ρk : Store V), Along S ρ ρk d i →
             All2 (fun v x => ρk x = some (PV.t v)) st state →
             Inv S (liveInBlock body F) (ρk.set i (.t (S.ofNat k))) L1
               (Env.setMany env1 (iv :: condIn :: ps) (S.ofNat k :: cnd :: st)) s3 := by
@@ -1639,12 +1662,12 @@ theorem forB_step (S : Sem V) (fuel : Nat) (hConst : ∀ l, ∃ c, constOf S l =
         -- the iterations
         have htF : t ∈ vunion F [t] := mem_vunion.mpr (Or.inr List.mem_cons_self)
         have iter : ∀ (left k : Nat) (ρk ρf : Store V) (st : List V) (cnd : V), S.truth cnd = some true →
-            Along ρ ρk d i → All2 (fun v x => ρk x = some (PV.t v)) st state →
+            Along S ρ ρk d i → All2 (fun v x => ρk x = some (PV.t v)) st state →
             iterFor S i (fun r => evalBlock S fuel body r) left k ρk = some (.normal ρf) →
             ∀ (G a : Nat), fuel ≤ G → left + 1 ≤ a →
             ∃ stf, loopIter S (loopBodyFn S (fun e => evalNodes S G e (bn ++ cnode :: ns3)) env1
                 (iv :: condIn :: ps) (condOut :: os)) a (some left) k cnd st = some stf
-              ∧ All2 (fun v x => ρf x = some (PV.t v)) stf state ∧ Along ρ ρf d i := by
+              ∧ All2 (fun v x => ρf x = some (PV.t v)) stf state ∧ Along S ρ ρf d i := by
           intro left
           induction left with
           | zero =>
@@ -1661,12 +1684,12 @@ theorem forB_step (S : Sem V) (fuel : Nat) (hConst : ∀ l, ∃ c, constOf S l =
             | none => simp [hbk] at hit
             | some o1 =>
               obtain ⟨ρ1, v, bk, hpre, run1, ht, hv, ho1⟩ :=
-                brkBody_run S fuel hp (hal.allT.set i (S.ofNat k)) (hbd ▸ hbk)
+                brkBody_run S fuel hp (tfree_brk (TFree.of_free hinv.noattr hfree) htAttr) (hal.allT.set i (S.ofNat k)) (hbd ▸ hbk)
               simp only [hbk] at hit
               have invk := mkInv k cnd st ρk hal hR
               rw [hlive F] at invk
               obtain ⟨envB, evB, invB, xB, mB⟩ :=
-                block_step S fuel hConst hId pre (vunion F [t]) hp (hfree.mono hAM1) invk hpre h4
+                block_step S fuel hConst hId hTL pre (vunion F [t]) hp (hfree.mono hAM1) invk hpre h4
               have evBG := evalNodes_mono S bn fuel G _ _ hG evB
               -- the break condition and the condition output
               obtain ⟨m', hl', hr'⟩ := invB.rel t _ (restrict_some.mpr ⟨htF, ht⟩)
@@ -1687,7 +1710,7 @@ theorem forB_step (S : Sem V) (fuel : Nat) (hConst : ∀ l, ∃ c, constOf S l =
                 cases hq : ρ1 pv with
                 | none => exact absurd hq (invC.bound pv m hl)
                 | some q =>
-                  obtain ⟨v', rfl⟩ := invC.allT pv q hq
+                  obtain ⟨v', rfl⟩ := invC.allT pv q hq (hfreeS pv hpv).2
                   obtain ⟨m2, hl2, hr2⟩ := invC.rel pv _
                     (restrict_some.mpr ⟨mem_vunion.mpr (Or.inl (hstF pv hpv)), hq⟩)
                   rw [hl] at hl2
@@ -1708,7 +1731,7 @@ theorem forB_step (S : Sem V) (fuel : Nat) (hConst : ∀ l, ∃ c, constOf S l =
                   simpa using this
                 simp only [this, Env.getMany, List.mapM_cons, hcoD, hrs]
                 rfl
-              have hal1 : Along ρ ρ1 d i :=
+              have hal1 : Along S ρ ρ1 d i :=
                 ⟨run1.allT,
                  fun x hx => run1.dom x (by
                    unfold Store.set
@@ -1755,13 +1778,13 @@ theorem forB_step (S : Sem V) (fuel : Nat) (hConst : ∀ l, ∃ c, constOf S l =
           cases hq : ρ x with
           | none => exact absurd hq (hinv.bound x m hl)
           | some q =>
-            obtain ⟨v, rfl⟩ := hinv.allT x q hq
+            obtain ⟨v, rfl⟩ := hinv.allT x q hq (hfreeS x hx).2
             obtain ⟨m', hl', hr⟩ := hinv.rel x _ (restrict_some.mpr ⟨hFlive x (hstF x hx), hq⟩)
             rw [hl] at hl'
             cases hl'
             exact ⟨v, by rw [x1.envSame m (hinv.vis.lookup hl)]; exact hr.1, rfl⟩
         obtain ⟨st0, hst0, hR0⟩ := inits_values hinits hf0
-        have hal0 : Along ρ ρ d i := ⟨hinv.allT, fun _ hx => hx, fun _ _ _ => rfl⟩
+        have hal0 : Along S ρ ρ d i := ⟨hinv.allT, fun _ hx => hx, fun _ _ _ => rfl⟩
         obtain ⟨stf, hloop, hRf, halF⟩ :=
           iter n 0 ρ ρ' st0 (S.ofBool true) hT hal0 hR0 he (max fuel (n + 1)) (max fuel (n + 1)) (Nat.le_max_left _ _)
             (Nat.le_max_right _ _)
@@ -1784,7 +1807,7 @@ theorem forB_step (S : Sem V) (fuel : Nat) (hConst : ∀ l, ∃ c, constOf S l =
         · have ev1' := evalNodes_mono S ns0 fuel (max fuel (n + 1) + 1) _ _
             (Nat.le_succ_of_le (Nat.le_max_left _ _)) ev1
           simpa using evalNodes_seq ev1' evLoop
-        · refine ⟨hsc.2.mono (fun y hy => after_in_used hfr hy), hinv.noattr.bindVals _ _,
+        · refine ⟨hsc.2.mono (fun y hy => after_in_used hfr hy), hinv.noattr.bindValsT _ _ (TFree.of_free hinv.noattr hfreeS),
             k06.sub hinv.cast, halF.allT, ?_, ?_⟩
           · intro y q hy
             obtain ⟨hm, hq⟩ := restrict_some.mp hy
@@ -1891,8 +1914,8 @@ theorem whileLiveE_of_stable {S : Sem V} {fuel : Nat} {t : Name} {body : List St
   exact fun y hy => (key y hy).2
 
 /-- What stays true of the Python store over the iterations of a `while` loop. -/
-structure AlongW (ρ ρk : Store V) (d : VSet) : Prop where
-  allT : AllT ρk
+structure AlongW (S : Sem V) (ρ ρk : Store V) (d : VSet) : Prop where
+  allT : AllT S ρk
   dom : ∀ x, ρ x ≠ none → ρk x ≠ none
   frame : ∀ x, x ∉ d → ρk x = ρ x
 
@@ -1905,7 +1928,7 @@ theorem while_core (S : Sem V) (fuel : Nat) (hConst : ∀ l, ∃ c, constOf S l 
     {ilName : Name}
     (hB : BodyFacts S fuel body F) (hd : assignedBlock body = some d) (hs : loopState body lo = some state)
     (hW : WhileLiveE t body lo F)
-    (hside : t ∈ state ∨ t ∉ liveInBlock body F) (hfree : FreeOf L (targetsBlock body))
+    (hside : t ∈ state ∨ t ∉ liveInBlock body F) (htP : t ∉ S.pyVars) (hfree : FreeOf S L (targetsBlock body))
     (hinv : Inv S F ρ L env s)
     (he : iterWhile (fun r => match r t with | some v => truthPV S v | none => none)
       (fun r => evalBlock S fuel body r) fuel ρ = some (.normal ρ'))
@@ -1944,7 +1967,7 @@ theorem while_core (S : Sem V) (fuel : Nat) (hConst : ∀ l, ∃ c, constOf S l 
       cases hρt : ρ t with
       | none => exact absurd hρt hρt0
       | some q0 =>
-        obtain ⟨v0, rfl⟩ := hinv.allT t q0 hρt
+        obtain ⟨v0, rfl⟩ := hinv.allT t q0 hρt htP
         obtain ⟨m0, hl0, hr0⟩ := hinv.rel t _ (restrict_some.mpr ⟨htF, hρt⟩)
         rw [hlt] at hl0
         cases hl0
@@ -1992,7 +2015,7 @@ theorem while_core (S : Sem V) (fuel : Nat) (hConst : ∀ l, ∃ c, constOf S l 
           mbind h5 with outs s6 h5d
           obtain ⟨q1, q2⟩ := pure_ok h5
           cases q1; subst q2
-          have hfreeS : FreeOf L state := by
+          have hfreeS : FreeOf S L state := by
             intro x hx
             have hxd : x ∈ d := by
               have hs' := hs
@@ -2048,10 +2071,9 @@ theorem while_core (S : Sem V) (fuel : Nat) (hConst : ∀ l, ∃ c, constOf S l 
           have hiv3 : iv ∈ s3.used := (f3.2 iv List.mem_cons_self).2
           have hps3 : ∀ p, p ∈ ps → p ∈ s3.used := fun p hp => (f3.2 p (List.mem_cons_of_mem _ hp)).2
           obtain ⟨hvis1, _⟩ := loopEnter_scope (vis := s3.used) h3 (hinv.vis.mono k03.mono) hiv3 hps3
-          have hna1 : NoAttrBind L1 := by
+          have hna1 : NoAttrBind S L1 := by
             rw [hL1eq]
-            exact NoAttrBind.bindVals
-              (fun x p ty hl => hinv.noattr x p ty (by rw [← lookup_push]; exact hl)) _ _
+            exact NoAttrBind.bindValsT hinv.noattr.push _ _ (TFree.of_free hinv.noattr hfreeS)
           have hlk_old : ∀ y, y ∉ state → lookup L1 y = lookup L y := by
             intro y hy
             rw [hL1eq, lookup_bindVals_notin _ _ _ hy, lookup_push]
@@ -2062,7 +2084,7 @@ theorem while_core (S : Sem V) (fuel : Nat) (hConst : ∀ l, ∃ c, constOf S l 
           have k4 := hB.cast h4
           have k4a := genUnique_cast h5a
           -- the invariant at the start of an iteration
-          have mkInv : ∀ (k : Nat) (cnd : V) (st : List V) (ρk : Store V), AlongW ρ ρk d →
+          have mkInv : ∀ (k : Nat) (cnd : V) (st : List V) (ρk : Store V), AlongW S ρ ρk d →
               All2 (fun v x => ρk x = some (PV.t v)) st state →
               Inv S (liveInBlock body F) ρk L1
                 (Env.setMany env (iv :: condIn :: ps) (S.ofNat k :: cnd :: st)) s3 := by
@@ -2105,13 +2127,13 @@ theorem while_core (S : Sem V) (fuel : Nat) (hConst : ∀ l, ∃ c, constOf S l 
                 exact hal.dom y (hinv.bound y m hl)
           -- the iterations
           have iter : ∀ (fl k : Nat) (ρk ρf : Store V) (st : List V) (cnd : V), ρk t = some (PV.t cnd) →
-              AlongW ρ ρk d → All2 (fun v x => ρk x = some (PV.t v)) st state →
+              AlongW S ρ ρk d → All2 (fun v x => ρk x = some (PV.t v)) st state →
               iterWhile (fun r => match r t with | some v => truthPV S v | none => none)
                 (fun r => evalBlock S fuel body r) fl ρk = some (.normal ρf) →
               ∃ G0, ∀ (G a : Nat), G0 ≤ G → fl + 1 ≤ a →
               ∃ stf, loopIter S (loopBodyFn S (fun e => evalNodes S G e (bn ++ ([cnode] ++ ns3))) env
                   (iv :: condIn :: ps) (condOut :: os)) a none k cnd st = some stf
-                ∧ All2 (fun v x => ρf x = some (PV.t v)) stf state ∧ AlongW ρ ρf d := by
+                ∧ All2 (fun v x => ρf x = some (PV.t v)) stf state ∧ AlongW S ρ ρf d := by
             intro fl
             induction fl with
             | zero => intro k ρk ρf st cnd _ _ _ hit; simp [iterWhile] at hit
@@ -2144,7 +2166,7 @@ theorem while_core (S : Sem V) (fuel : Nat) (hConst : ∀ l, ∃ c, constOf S l 
                       cases hq1 : ρ1 t with
                       | none => exact absurd hq1 hρ1t
                       | some q1 =>
-                        obtain ⟨v1, rfl⟩ := invB.allT t q1 hq1
+                        obtain ⟨v1, rfl⟩ := invB.allT t q1 hq1 htP
                         obtain ⟨m', hl', hr'⟩ := invB.rel t _ (restrict_some.mpr ⟨htF, hq1⟩)
                         rw [hl2] at hl'
                         cases hl'
@@ -2164,7 +2186,7 @@ theorem while_core (S : Sem V) (fuel : Nat) (hConst : ∀ l, ∃ c, constOf S l 
                           cases hq : ρ1 pv with
                           | none => exact absurd hq (invC.bound pv m hl)
                           | some q =>
-                            obtain ⟨v', rfl⟩ := invC.allT pv q hq
+                            obtain ⟨v', rfl⟩ := invC.allT pv q hq (hfreeS pv hpv).2
                             obtain ⟨m2, hlm, hrm⟩ := invC.rel pv _ (restrict_some.mpr ⟨hstF pv hpv, hq⟩)
                             rw [hl] at hlm
                             cases hlm
@@ -2186,7 +2208,7 @@ theorem while_core (S : Sem V) (fuel : Nat) (hConst : ∀ l, ∃ c, constOf S l 
                             evalNodes_seq (evB G hG) (evalNodes_seq (a := [cnode]) (evC G) (evD G))
                           simp only [this, Env.getMany, List.mapM_cons, hcoD, hrs]
                           rfl
-                        have hal1 : AlongW ρ ρ1 d :=
+                        have hal1 : AlongW S ρ ρ1 d :=
                           ⟨run1.allT, fun x hx => run1.dom x (hal.dom x hx),
                            fun x hxd => by rw [run1.frame d hd x hxd]; exact hal.frame x hxd⟩
                         obtain ⟨G0', hih⟩ := ih (k + 1) ρ1 ρf rs v1 hq1 hal1 hallD hit
@@ -2206,13 +2228,13 @@ theorem while_core (S : Sem V) (fuel : Nat) (hConst : ∀ l, ∃ c, constOf S l 
             cases hq : ρ x with
             | none => exact absurd hq (hinv.bound x m hl)
             | some q =>
-              obtain ⟨v, rfl⟩ := hinv.allT x q hq
+              obtain ⟨v, rfl⟩ := hinv.allT x q hq (hfreeS x hx).2
               obtain ⟨m', hl', hr⟩ := hinv.rel x _ (restrict_some.mpr ⟨hstF x hx, hq⟩)
               rw [hl] at hl'
               cases hl'
               exact ⟨v, hr.1, rfl⟩
           obtain ⟨st0, hst0, hR0⟩ := inits_values hinits hf0
-          have hal0 : AlongW ρ ρ d := ⟨hinv.allT, fun _ hx => hx, fun _ _ => rfl⟩
+          have hal0 : AlongW S ρ ρ d := ⟨hinv.allT, fun _ hx => hx, fun _ _ => rfl⟩
           obtain ⟨Gi, hiter⟩ := iter fuel 0 ρ ρ' st0 v0 hρt hal0 hR0 he
           obtain ⟨GG, hGG2, hGG3⟩ : ∃ GG, Gi ≤ GG ∧ fuel + 1 ≤ GG := ⟨max Gi (fuel + 1), by omega, by omega⟩
           obtain ⟨stf, hloop, hRf, halF⟩ := hiter GG GG hGG2 hGG3
@@ -2235,7 +2257,7 @@ theorem while_core (S : Sem V) (fuel : Nat) (hConst : ∀ l, ∃ c, constOf S l 
             ⟨fun m hm => envSetMany_frame outs stf env m (hnotin m hm), k06.ext⟩
           refine ⟨GG + 1, env.setMany outs stf, ?_, ?_, xfin⟩
           · simpa using evLoop
-          · refine ⟨hvisF, hinv.noattr.bindVals _ _, k06.sub hinv.cast, halF.allT, ?_, ?_⟩
+          · refine ⟨hvisF, hinv.noattr.bindValsT _ _ (TFree.of_free hinv.noattr hfreeS), k06.sub hinv.cast, halF.allT, ?_, ?_⟩
             · intro y q hy
               obtain ⟨hm, hq⟩ := restrict_some.mp hy
               by_cases hys : y ∈ state
@@ -2261,6 +2283,7 @@ theorem while_core (S : Sem V) (fuel : Nat) (hConst : ∀ l, ∃ c, constOf S l 
 /-- The same for a body `pre; if b: break`: `cond_out = And(t, Not(b))` (since ddfea30). -/
 theorem whileB_core (S : Sem V) (fuel : Nat) (hConst : ∀ l, ∃ c, constOf S l = some c)
     (hId : ∀ v, S.op "" "Identity" [some v] [] = some [v])
+    (hTL : ∀ l c b, constOf S l = some c → truthPV S (.py l) = some b → S.truth c = some b)
     (hNot : ∀ v bk, S.truth v = some bk → ∃ w, S.op "" "Not" [some v] [] = some [w] ∧ S.truth w = some (!bk))
     (hAnd : ∀ x y yb, S.truth y = some yb → ∃ w, S.op "" "And" [some x, some y] [] = some [w] ∧
       (yb = false → S.truth w = some false) ∧ (yb = true → S.truth w = S.truth x))
@@ -2269,7 +2292,7 @@ theorem whileB_core (S : Sem V) (fuel : Nat) (hConst : ∀ l, ∃ c, constOf S l
     {ilName : Name}
     (hp : ifBlock pre = true) (hd : assignedBlock pre = some d) (hs : loopState body lo = some state)
     (hW : WhileLive t body lo F)
-    (hside : t ∈ state ∨ t ∉ liveInBlock body F) (hfree : FreeOf L (targetsBlock pre))
+    (hside : t ∈ state ∨ t ∉ liveInBlock body F) (htP : t ∉ S.pyVars) (hbAttr : S.attrLit b = none ∧ b ∉ S.pyVars) (hfree : FreeOf S L (targetsBlock pre))
     (hinv : Inv S F ρ L env s)
     (he : iterWhile (fun r => match r t with | some v => truthPV S v | none => none)
       (fun r => evalBlock S fuel body r) fuel ρ = some (.normal ρ'))
@@ -2317,7 +2340,7 @@ theorem whileB_core (S : Sem V) (fuel : Nat) (hConst : ∀ l, ∃ c, constOf S l
       cases hρt : ρ t with
       | none => exact absurd hρt hρt0
       | some q0 =>
-        obtain ⟨v0, rfl⟩ := hinv.allT t q0 hρt
+        obtain ⟨v0, rfl⟩ := hinv.allT t q0 hρt htP
         obtain ⟨m0, hl0, hr0⟩ := hinv.rel t _ (restrict_some.mpr ⟨htF, hρt⟩)
         rw [hlt] at hl0
         cases hl0
@@ -2369,7 +2392,7 @@ theorem whileB_core (S : Sem V) (fuel : Nat) (hConst : ∀ l, ∃ c, constOf S l
           mbind h5 with outs s6 h5d
           obtain ⟨q1, q2⟩ := pure_ok h5
           cases q1; subst q2
-          have hfreeS : FreeOf L state := by
+          have hfreeS : FreeOf S L state := by
             intro x hx
             have hxd : x ∈ d := by
               have hs' := hs
@@ -2426,10 +2449,9 @@ theorem whileB_core (S : Sem V) (fuel : Nat) (hConst : ∀ l, ∃ c, constOf S l
           have hiv3 : iv ∈ s3.used := (f3.2 iv List.mem_cons_self).2
           have hps3 : ∀ p, p ∈ ps → p ∈ s3.used := fun p hp => (f3.2 p (List.mem_cons_of_mem _ hp)).2
           obtain ⟨hvis1, _⟩ := loopEnter_scope (vis := s3.used) h3 (hinv.vis.mono k03.mono) hiv3 hps3
-          have hna1 : NoAttrBind L1 := by
+          have hna1 : NoAttrBind S L1 := by
             rw [hL1eq]
-            exact NoAttrBind.bindVals
-              (fun x p ty hl => hinv.noattr x p ty (by rw [← lookup_push]; exact hl)) _ _
+            exact NoAttrBind.bindValsT hinv.noattr.push _ _ (TFree.of_free hinv.noattr hfreeS)
           have hlk_old : ∀ y, y ∉ state → lookup L1 y = lookup L y := by
             intro y hy
             rw [hL1eq, lookup_bindVals_notin _ _ _ hy, lookup_push]
@@ -2441,7 +2463,7 @@ theorem whileB_core (S : Sem V) (fuel : Nat) (hConst : ∀ l, ∃ c, constOf S l
           have hbF : b ∈ vunion F [b] := mem_vunion.mpr (Or.inr List.mem_cons_self)
           have htFb : t ∈ vunion F [b] := mem_vunion.mpr (Or.inl htF)
           -- the invariant at the start of an iteration
-          have mkInv : ∀ (k : Nat) (cnd : V) (st : List V) (ρk : Store V), AlongW ρ ρk d →
+          have mkInv : ∀ (k : Nat) (cnd : V) (st : List V) (ρk : Store V), AlongW S ρ ρk d →
               All2 (fun v x => ρk x = some (PV.t v)) st state →
               Inv S (liveInBlock body F) ρk L1
                 (Env.setMany env (iv :: condIn :: ps) (S.ofNat k :: cnd :: st)) s3 := by
@@ -2485,7 +2507,7 @@ theorem whileB_core (S : Sem V) (fuel : Nat) (hConst : ∀ l, ∃ c, constOf S l
           -- the iterations
           have iter : ∀ (fl k : Nat) (ρk ρf : Store V) (st : List V) (cnd : V),
               (∃ vt, ρk t = some (PV.t vt) ∧ S.truth cnd = S.truth vt) →
-              AlongW ρ ρk d → All2 (fun v x => ρk x = some (PV.t v)) st state →
+              AlongW S ρ ρk d → All2 (fun v x => ρk x = some (PV.t v)) st state →
               iterWhile (fun r => match r t with | some v => truthPV S v | none => none)
                 (fun r => evalBlock S fuel body r) fl ρk = some (.normal ρf) →
               ∀ (G a : Nat), fuel ≤ G → fl + 2 ≤ a →
@@ -2493,7 +2515,7 @@ theorem whileB_core (S : Sem V) (fuel : Nat) (hConst : ∀ l, ∃ c, constOf S l
                   (bn ++ ([Node.op "" "Not" [some nb] [notb] [], Node.op "" "And" [some n2, some notb] [condOut] []]
                     ++ ns3))) env
                   (iv :: condIn :: ps) (condOut :: os)) a none k cnd st = some stf
-                ∧ All2 (fun v x => ρf x = some (PV.t v)) stf state ∧ AlongW ρ ρf d := by
+                ∧ All2 (fun v x => ρf x = some (PV.t v)) stf state ∧ AlongW S ρ ρf d := by
             intro fl
             induction fl with
             | zero => intro k ρk ρf st cnd _ _ _ hit; simp [iterWhile] at hit
@@ -2519,12 +2541,12 @@ theorem whileB_core (S : Sem V) (fuel : Nat) (hConst : ∀ l, ∃ c, constOf S l
                     | none => simp [hbk] at hit
                     | some o1 =>
                       obtain ⟨ρ1, vb, bk, hpre, run1, hbv, hbt, ho1⟩ :=
-                        brkBody_run S fuel hp hal.allT (hbd ▸ hbk)
+                        brkBody_run S fuel hp (tfree_brk (TFree.of_free hinv.noattr hfree) hbAttr) hal.allT (hbd ▸ hbk)
                       simp only [hbk] at hit
                       have invk := mkInv k cnd st ρk hal hR
                       rw [hlive F] at invk
                       obtain ⟨envB, evB, invB, xB, mB⟩ :=
-                        block_step S fuel hConst hId pre (vunion F [b]) hp (hfree.mono hAM1) invk hpre h4
+                        block_step S fuel hConst hId hTL pre (vunion F [b]) hp (hfree.mono hAM1) invk hpre h4
                       have evBG := evalNodes_mono S bn fuel G _ _ hG evB
                       -- the break condition
                       obtain ⟨mb, hlb, hrb⟩ := invB.rel b _ (restrict_some.mpr ⟨hbF, hbv⟩)
@@ -2536,7 +2558,7 @@ theorem whileB_core (S : Sem V) (fuel : Nat) (hConst : ∀ l, ∃ c, constOf S l
                       cases hq1 : ρ1 t with
                       | none => exact absurd hq1 hρ1t
                       | some q1 =>
-                        obtain ⟨v1, rfl⟩ := invB.allT t q1 hq1
+                        obtain ⟨v1, rfl⟩ := invB.allT t q1 hq1 htP
                         obtain ⟨m', hl', hr'⟩ := invB.rel t _ (restrict_some.mpr ⟨htFb, hq1⟩)
                         rw [hl2] at hl'
                         cases hl'
@@ -2572,7 +2594,7 @@ theorem whileB_core (S : Sem V) (fuel : Nat) (hConst : ∀ l, ∃ c, constOf S l
                           cases hq : ρ1 pv with
                           | none => exact absurd hq (invC.bound pv m hl)
                           | some q =>
-                            obtain ⟨v', rfl⟩ := invC.allT pv q hq
+                            obtain ⟨v', rfl⟩ := invC.allT pv q hq (hfreeS pv hpv).2
                             obtain ⟨m2, hlm, hrm⟩ := invC.rel pv _
                               (restrict_some.mpr ⟨mem_vunion.mpr (Or.inl (hstF pv hpv)), hq⟩)
                             rw [hl] at hlm
@@ -2597,7 +2619,7 @@ theorem whileB_core (S : Sem V) (fuel : Nat) (hConst : ∀ l, ∃ c, constOf S l
                             evalNodes_seq evBG (evalNodes_seq evC evD)
                           simp only [this, Env.getMany, List.mapM_cons, hcoD, hrs]
                           rfl
-                        have hal1 : AlongW ρ ρ1 d :=
+                        have hal1 : AlongW S ρ ρ1 d :=
                           ⟨run1.allT, fun x hx => run1.dom x (hal.dom x hx),
                            fun x hxd => by rw [run1.frame d hd x hxd]; exact hal.frame x hxd⟩
                         cases bk with
@@ -2629,13 +2651,13 @@ theorem whileB_core (S : Sem V) (fuel : Nat) (hConst : ∀ l, ∃ c, constOf S l
             cases hq : ρ x with
             | none => exact absurd hq (hinv.bound x m hl)
             | some q =>
-              obtain ⟨v, rfl⟩ := hinv.allT x q hq
+              obtain ⟨v, rfl⟩ := hinv.allT x q hq (hfreeS x hx).2
               obtain ⟨m', hl', hr⟩ := hinv.rel x _ (restrict_some.mpr ⟨hstF x hx, hq⟩)
               rw [hl] at hl'
               cases hl'
               exact ⟨v, hr.1, rfl⟩
           obtain ⟨st0, hst0, hR0⟩ := inits_values hinits hf0
-          have hal0 : AlongW ρ ρ d := ⟨hinv.allT, fun _ hx => hx, fun _ _ => rfl⟩
+          have hal0 : AlongW S ρ ρ d := ⟨hinv.allT, fun _ hx => hx, fun _ _ => rfl⟩
           obtain ⟨stf, hloop, hRf, halF⟩ :=
             iter fuel 0 ρ ρ' st0 v0 ⟨v0, hρt, rfl⟩ hal0 hR0 he (fuel + 2) (fuel + 2) (by omega) (Nat.le_refl _)
           -- the Loop node
@@ -2659,7 +2681,7 @@ theorem whileB_core (S : Sem V) (fuel : Nat) (hConst : ∀ l, ∃ c, constOf S l
             ⟨fun m hm => envSetMany_frame outs stf env m (hnotin m hm), k06.ext⟩
           refine ⟨fuel + 2 + 1, env.setMany outs stf, ?_, ?_, xfin⟩
           · simpa using evLoop
-          · refine ⟨hvisF, hinv.noattr.bindVals _ _, k06.sub hinv.cast, halF.allT, ?_, ?_⟩
+          · refine ⟨hvisF, hinv.noattr.bindValsT _ _ (TFree.of_free hinv.noattr hfreeS), k06.sub hinv.cast, halF.allT, ?_, ?_⟩
             · intro y q hy
               obtain ⟨hm, hq⟩ := restrict_some.mp hy
               by_cases hys : y ∈ state
@@ -2781,9 +2803,9 @@ theorem splitBrk_eq {body pre : List Stmt} {t : Name} (h : splitBrk body = some 
 
 theorem for_run (S : Sem V) (fuel : Nat) {i : Name} {b : Expr} {body : List Stmt}
     {ρ : Store V} {o : Outcome V}
-    (hrun : ∀ (n k : Nat) (ρ0 : Store V) (o : Outcome V), AllT ρ0 →
+    (hrun : ∀ (n k : Nat) (ρ0 : Store V) (o : Outcome V), AllT S ρ0 →
       iterFor S i (fun r => evalBlock S fuel body r) n k ρ0 = some o → ∃ ρ', o = .normal ρ')
-    (hρ : AllT ρ)
+    (hρ : AllT S ρ)
     (he : evalStmt S fuel (.for_ i true b body) ρ = some o) : ∃ ρ', o = .normal ρ' := by
   unfold evalStmt at he
   simp only [Bool.not_true, Bool.false_eq_true, if_false] at he
@@ -2811,9 +2833,9 @@ def convWhileAt (L : Locals) (t : Name) (body : List Stmt) (lo : VSet) (bindIt :
     pure (L', ns0 ++ nl)
 
 theorem iterWhile_run (S : Sem V) (fuel : Nat) {body : List Stmt} {cond : Store V → Option Bool}
-    (hrun : ∀ (ρ0 : Store V) (o : Outcome V), AllT ρ0 → evalBlock S fuel body ρ0 = some o →
-      ∃ ρ1, (o = .normal ρ1 ∨ o = .broke ρ1) ∧ AllT ρ1) :
-    ∀ (fl : Nat) {ρ : Store V} {o : Outcome V}, AllT ρ →
+    (hrun : ∀ (ρ0 : Store V) (o : Outcome V), AllT S ρ0 → evalBlock S fuel body ρ0 = some o →
+      ∃ ρ1, (o = .normal ρ1 ∨ o = .broke ρ1) ∧ AllT S ρ1) :
+    ∀ (fl : Nat) {ρ : Store V} {o : Outcome V}, AllT S ρ →
       iterWhile cond (fun r => evalBlock S fuel body r) fl ρ = some o → ∃ ρ', o = .normal ρ' := by
   intro fl
   induction fl with
@@ -2839,12 +2861,14 @@ theorem iterWhile_run (S : Sem V) (fuel : Nat) {body : List Stmt} {cond : Store 
 
 theorem whileAt_step (S : Sem V) (fuel : Nat) (hConst : ∀ l, ∃ c, constOf S l = some c)
     (hId : ∀ v, S.op "" "Identity" [some v] [] = some [v])
+    (hTL : ∀ l c b, constOf S l = some c → truthPV S (.py l) = some b → S.truth c = some b)
     (hNot : ∀ v bk, S.truth v = some bk → ∃ w, S.op "" "Not" [some v] [] = some [w] ∧ S.truth w = some (!bk))
     (hAnd : ∀ x y yb, S.truth y = some yb → ∃ w, S.op "" "And" [some x, some y] [] = some [w] ∧
       (yb = false → S.truth w = some false) ∧ (yb = true → S.truth w = S.truth x))
     {t : Name} {body : List Stmt} {lo : VSet} {ρ : Store V} {o : Outcome V} {L L' : Locals} {env : Env V}
     {s s' : St} {ns : List Node}
-    (hok : whileOK t body lo = true) (hfree : FreeOf L (targetsBlock body))
+    (hok : whileOK t body lo = true) (hfree : FreeOf S L (targetsBlock body))
+    (hTF : TFree S (targetsStmt (.while_ (.var t) body)))
     (hinv : Inv S (liveInStmt (.while_ (.var t) body) lo) ρ L env s)
     (he : evalStmt S fuel (.while_ (.var t) body) ρ = some o)
     (h : convWhileAt L t body lo false s = .ok ((L', ns), s'))
@@ -2871,8 +2895,11 @@ theorem whileAt_step (S : Sem V) (fuel : Nat) (hConst : ∀ l, ∃ c, constOf S 
           have := List.contains_iff_mem.mpr hm
           rw [h'] at this; cases this
       -- source side
+      have htl : S.attrLit t = none := (hTF t (by simp [targetsStmt, bareVar])).1
+      have htP : t ∉ S.pyVars := (hTF t (by simp [targetsStmt, bareVar])).2
+      have hTFb : TFree S (targetsBlock body) := hTF.sub (fun x hx => by simp [targetsStmt, hx])
       unfold evalStmt at he
-      simp only [evalExpr] at he
+      simp only [evalExpr_var_of_none htl] at he
       -- converter side
       unfold convWhileAt at h
       simp only [hs] at h
@@ -2898,10 +2925,10 @@ theorem whileAt_step (S : Sem V) (fuel : Nat) (hConst : ∀ l, ∃ c, constOf S 
           (fun X y hy => live_rel_block body (A := []) (X := X) hbody (fun z hz => Or.inr hz) hy) hstab
         obtain ⟨ρ1, rfl⟩ := iterWhile_run S fuel
           (fun ρ0 o h0 hb => by
-            obtain ⟨ρ1, ho, r1⟩ := ifBlock_run S fuel body hbody h0 hb
+            obtain ⟨ρ1, ho, r1⟩ := ifBlock_run S fuel body hbody hTFb h0 hb
             exact ⟨ρ1, Or.inl ho, r1.allT⟩) fuel hinv.allT he
-        obtain ⟨G, env', ev, inv', _⟩ := while_core S fuel hConst hId (bodyFacts_of_ifBlock S fuel hConst hId _ hbody) hd hs
-          (hW.toE (exposed_eq_live_block body [] hbody)) hside' hfree hinv he
+        obtain ⟨G, env', ev, inv', _⟩ := while_core S fuel hConst hId (bodyFacts_of_ifBlock S fuel hConst hId hTL _ hbody hTFb) hd hs
+          (hW.toE (exposed_eq_live_block body [] hbody)) hside' htP hfree hinv he
           h2 h1 h3 h4 h5 hmono hvisF
         exact ⟨ρ1, rfl, G, env', ev, inv'⟩
       · cases hsp : splitBrk body with
@@ -2916,13 +2943,14 @@ theorem whileAt_step (S : Sem V) (fuel : Nat) (hConst : ∀ l, ∃ c, constOf S 
           obtain ⟨ρ1, rfl⟩ := iterWhile_run S fuel
             (fun ρ0 o h0 hb => by
               rw [hbd] at hb
-              obtain ⟨ρ1, v, bk, _, run1, _, _, ho⟩ := brkBody_run S fuel hbody h0 hb
+              obtain ⟨ρ1, v, bk, _, run1, _, _, ho⟩ := brkBody_run S fuel hbody (hbd ▸ hTFb) h0 hb
               refine ⟨ρ1, ?_, run1.allT⟩
               cases bk with
               | true => right; simpa using ho
               | false => left; simpa using ho) fuel hinv.allT he
-          obtain ⟨G, env', ev, inv', _⟩ := whileB_core S fuel hConst hId hNot hAnd hbd hbody hdp hs hW hside'
-            (by rw [← targets_brk pre b, ← hbd]; exact hfree) hinv he h2 h1 h3 h4 h5 hmono hvisF
+          obtain ⟨G, env', ev, inv', _⟩ := whileB_core S fuel hConst hId hTL hNot hAnd hbd hbody hdp hs hW hside' htP
+            (hTFb b (by rw [hbd, targets_brk]; simp))
+            (hfree.sub (fun x hx => by rw [hbd, targets_brk]; exact List.mem_append_left _ hx)) hinv he h2 h1 h3 h4 h5 hmono hvisF
           exact ⟨ρ1, rfl, G, env', ev, inv'⟩
 
 theorem convStmt_while (L : Locals) (t : Name) (body : List Stmt) (lo : VSet) :
@@ -2945,18 +2973,22 @@ theorem stateless_while_refused (L : Locals) (t : Name) (body : List Stmt) (lo :
   exact (needState_ok h1).1 rfl
 
 theorem top_step (S : Sem V) (fuel : Nat) (hConst : ∀ l, ∃ c, constOf S l = some c)
-    (hId : ∀ v, S.op "" "Identity" [some v] [] = some [v]) (hT : S.truth (S.ofBool true) = some true)
+    (hId : ∀ v, S.op "" "Identity" [some v] [] = some [v])
+    (hTL : ∀ l c b, constOf S l = some c → truthPV S (.py l) = some b → S.truth c = some b) (hT : S.truth (S.ofBool true) = some true)
     (hNat : ∀ k c, constOf S (.int k) = some c → S.natOf c = some k.toNat)
     (hNot : ∀ v bk, S.truth v = some bk → ∃ w, S.op "" "Not" [some v] [] = some [w] ∧ S.truth w = some (!bk))
     (hAnd : ∀ x y yb, S.truth y = some yb → ∃ w, S.op "" "And" [some x, some y] [] = some [w] ∧
       (yb = false → S.truth w = some false) ∧ (yb = true → S.truth w = S.truth x))
     (st : Stmt) (lo : VSet) {ρ : Store V} {o : Outcome V} {L L' : Locals} {env : Env V} {s s' : St}
-    {ns : List Node} (hst : forTopStmt st lo = true) (hfree : FreeOf L (targetsStmt st))
+    {ns : List Node} (hst : forTopStmt st lo = true) (hfree : FreeOf S L (targetsStmt st))
     (hinv : Inv S (liveInStmt st lo) ρ L env s)
     (he : evalStmt S fuel st ρ = some o) (h : convStmt L st lo s = .ok ((L', ns), s')) :
     ∃ ρ1, o = .normal ρ1 ∧ ∃ G env', evalNodes S G env ns = some env' ∧ Inv S lo ρ1 L' env' s' := by
+  have hTF : TFree S (targetsStmt st) := TFree.of_free hinv.noattr hfree
   by_cases hfor : ∃ i ok b body, st = .for_ i ok b body
   · obtain ⟨i, ok, b, body, rfl⟩ := hfor
+    have hiF := hTF i (by simp [targetsStmt])
+    have hTFb : TFree S (targetsBlock body) := hTF.sub (fun x hx => by simp [targetsStmt, hx])
     simp only [forTopStmt, forOK, Bool.and_eq_true] at hst
     obtain ⟨rfl, ⟨hbody, hdd⟩, hstab⟩ := hst
     cases hd : assignedBlock body with
@@ -2971,9 +3003,9 @@ theorem top_step (S : Sem V) (fuel : Nat) (hConst : ∀ l, ∃ c, constOf S l = 
       rcases Bool.or_eq_true_iff.mp hbody with hbody | hbody
       · obtain ⟨ρ1, rfl⟩ := for_run S fuel
           (fun n k ρ0 o h0 hit => by
-            obtain ⟨ρ', ho, _⟩ := iterFor_run S fuel i hbody hd n k h0 hit
+            obtain ⟨ρ', ho, _⟩ := iterFor_run S fuel i hbody hTFb hd n k h0 hit
             exact ⟨ρ', ho⟩) hinv.allT he
-        obtain ⟨G, env', ev, inv', _, _⟩ := for_step S fuel hConst hId hT hNat (bodyFacts_of_ifBlock S fuel hConst hId _ hbody) hd hid
+        obtain ⟨G, env', ev, inv', _, _⟩ := for_step S fuel hConst hId hT hNat (bodyFacts_of_ifBlock S fuel hConst hId hTL _ hbody hTFb) hd hid hiF
           (hfree.sub (fun x hx => by simp [targetsStmt, hx]))
           ((forLive_of_stable hbody hstab).toE (exposed_eq_live_block body [] hbody)) hinv he h
         exact ⟨ρ1, rfl, G, env', ev, inv'⟩
@@ -2987,11 +3019,14 @@ theorem top_step (S : Sem V) (fuel : Nat) (hConst : ∀ l, ∃ c, constOf S l = 
           obtain ⟨ρ1, rfl⟩ := for_run S fuel
             (fun n k ρ0 o h0 hit => by
               rw [hbd] at hit
-              exact iterForB_run S fuel i hbody n k h0 hit) hinv.allT he
+              exact iterForB_run S fuel i hbody (hbd ▸ hTFb) n k h0 hit) hinv.allT he
           have hF := forLive_of_stable' (i := i) (ok := true) (b := b) (body := body) (lo := lo)
             (fun X y hy => by rw [hbd] at hy ⊢; exact live_rel_brk hbody hy) hstab
-          obtain ⟨G, env', ev, inv', _, _⟩ := forB_step S fuel hConst hId hT hNot hbd hNat hbody hdp hid
-            (by rw [← targets_brk pre t, ← hbd]; exact hfree.sub (fun x hx => by simp [targetsStmt, hx]))
+          obtain ⟨G, env', ev, inv', _, _⟩ := forB_step S fuel hConst hId hTL hT hNot hbd hNat hbody hdp hid hiF
+            (hTFb t (by rw [hbd, targets_brk]; simp))
+            (hfree.sub (fun x hx => by
+              simp only [targetsStmt, List.mem_cons]
+              exact Or.inr (by rw [hbd, targets_brk]; exact List.mem_append_left _ hx)))
             hF hinv he h
           exact ⟨ρ1, rfl, G, env', ev, inv'⟩
   · by_cases hwh : ∃ t body, st = .while_ (.var t) body
@@ -3000,7 +3035,7 @@ theorem top_step (S : Sem V) (fuel : Nat) (hConst : ∀ l, ∃ c, constOf S l = 
       have hfr := convStmt_fresh L _ lo h
       have hsc := convStmt_scope L _ lo hinv.vis (fun x hx => hx) h
       rw [convStmt_while] at h
-      exact whileAt_step S fuel hConst hId hNot hAnd hst (hfree.sub (fun x hx => by simpa [targetsStmt] using hx)) hinv he h hfr.1
+      exact whileAt_step S fuel hConst hId hTL hNot hAnd hst (hfree.sub (fun x hx => by simp [targetsStmt, hx])) hTF hinv he h hfr.1
         (hsc.2.mono (fun y hy => after_in_used hfr hy))
     have hif : ifStmt st = true := by
       cases st with
@@ -3010,12 +3045,13 @@ theorem top_step (S : Sem V) (fuel : Nat) (hConst : ∀ l, ∃ c, constOf S l = 
         | var t => exact absurd ⟨t, body, rfl⟩ hwh
         | _ => simp [forTopStmt, ifStmt] at hst
       | _ => exact hst
-    obtain ⟨ρ1, rfl, _⟩ := ifStmt_run S fuel st hif hinv.allT he
-    obtain ⟨env1, ev1, inv1, _, _⟩ := stmt_step S fuel hConst hId st _ hif hfree hinv he h
+    obtain ⟨ρ1, rfl, _⟩ := ifStmt_run S fuel st hif hTF hinv.allT he
+    obtain ⟨env1, ev1, inv1, _, _⟩ := stmt_step S fuel hConst hId hTL st _ hif hfree hinv he h
     exact ⟨ρ1, rfl, fuel, env1, ev1, inv1⟩
 
 theorem convTop_for_sim (S : Sem V) (fuel : Nat) (hConst : ∀ l, ∃ c, constOf S l = some c)
-    (hId : ∀ v, S.op "" "Identity" [some v] [] = some [v]) (hT : S.truth (S.ofBool true) = some true)
+    (hId : ∀ v, S.op "" "Identity" [some v] [] = some [v])
+    (hTL : ∀ l c b, constOf S l = some c → truthPV S (.py l) = some b → S.truth c = some b) (hT : S.truth (S.ofBool true) = some true)
     (hNat : ∀ k c, constOf S (.int k) = some c → S.natOf c = some k.toNat)
     (hNot : ∀ v bk, S.truth v = some bk → ∃ w, S.op "" "Not" [some v] [] = some [w] ∧ S.truth w = some (!bk))
     (hAnd : ∀ x y yb, S.truth y = some yb → ∃ w, S.op "" "And" [some x, some y] [] = some [w] ∧
@@ -3023,7 +3059,7 @@ theorem convTop_for_sim (S : Sem V) (fuel : Nat) (hConst : ∀ l, ∃ c, constOf
     {inputs : List Name} {rc : Option Nat} :
     ∀ (body : List Stmt) (L : Locals) {ρ : Store V} {env : Env V} {s s' : St} {ns : List Node}
       {outs : List Name} {pvs : List (PV V)} {vs : List V},
-      forLine body = true → FreeOf L (targetsBlock body) → Inv S (liveInBlock body []) ρ L env s →
+      forLine body = true → FreeOf S L (targetsBlock body) → Inv S (liveInBlock body []) ρ L env s →
       evalBlock S fuel body ρ = some (.returned pvs) → pvs.mapM (toTensor S) = some vs →
       convTop inputs rc L body [] s = .ok ((ns, outs), s') →
       ∃ G env', evalNodes S G env ns = some env' ∧ outs.mapM env' = some vs := by
@@ -3033,7 +3069,7 @@ theorem convTop_for_sim (S : Sem V) (fuel : Nat) (hConst : ∀ l, ∃ c, constOf
   | cons st ss ih =>
     intro L ρ env s s' ns outs pvs vs hi hfree hinv he hv h
     rcases forLine_cons hi with ⟨es, rfl, rfl⟩ | ⟨hst, hss⟩
-    · obtain ⟨env', ev, hm⟩ := convTop_if_sim S fuel hConst hId [.ret es false] L (by simp [ifLine])
+    · obtain ⟨env', ev, hm⟩ := convTop_if_sim S fuel hConst hId hTL [.ret es false] L (by simp [ifLine])
         hfree hinv he hv h
       exact ⟨fuel, env', ev, hm⟩
     · unfold liveInBlock at hinv
@@ -3055,7 +3091,7 @@ theorem convTop_for_sim (S : Sem V) (fuel : Nat) (hConst : ∀ l, ∃ c, constOf
         obtain ⟨q1, q2⟩ := pure_ok h
         cases q1
         obtain ⟨ρ1, rfl, G1, env1, ev1, inv1⟩ :=
-          top_step S fuel hConst hId hT hNat hNot hAnd st _ hst hfree.head.1 hinv hs h1
+          top_step S fuel hConst hId hTL hT hNat hNot hAnd st _ hst hfree.head.1 hinv hs h1
         simp only [hs] at he
         obtain ⟨G2, env2, ev2, hm2⟩ := ih L1 hss (hfree.head.2.mono (convStmt_attrMono L st _ h1)) inv1 he hv h2
         exact ⟨max G1 G2, env2,
@@ -3064,12 +3100,14 @@ theorem convTop_for_sim (S : Sem V) (fuel : Nat) (hConst : ∀ l, ∃ c, constOf
 
 /-- The function-level wrapper shared by the refinement theorems: the invariant holds at the head of the body,
 so a simulation of the body (`hsim`) gives the refinement. -/
-theorem convert_correct_via (S : Sem V) {f : Func} {g : Graph}
-    (hattr : ∀ p, p ∈ attrParams f.params → p ∉ targetsBlock f.body)
+theorem convert_correct_via (S : Sem V) {f : Func} {g : Graph} {ts : List Name}
+    (hattr : ∀ p, p ∈ attrParams f.params → p ∉ ts)
+    (hσ : ∀ x l, S.attrLit x = some l → ∃ ty, Param.attr x ty ∈ f.params ∧ AttrVal S x ty l)
+    (hPy : ∀ x, x ∈ S.pyVars → x ∉ ts)
     (hnames : (f.params.map Param.name).Nodup) (h : convert f = .ok g)
     {fuel : Nat} {args vs : List V} (he : evalFunc S fuel f args = some vs)
     (hsim : ∀ {ρ : Store V} {env : Env V} {s s' : St} {ns : List Node} {outs : List Name} {pvs : List (PV V)},
-      FreeOf [paramFrame f.params] (targetsBlock f.body) →
+      FreeOf S [paramFrame f.params] ts →
       Inv S (liveInBlock f.body []) ρ [paramFrame f.params] env s →
       evalBlock S fuel f.body ρ = some (.returned pvs) → pvs.mapM (toTensor S) = some vs →
       convTop (tensorParams f.params) f.retCount [paramFrame f.params] f.body [] s = .ok ((ns, outs), s') →
@@ -3112,12 +3150,12 @@ theorem convert_correct_via (S : Sem V) {f : Func} {g : Graph}
                 (Store.setMany (fun _ => none) (tensorParams f.params) (args.map PV.t))
                 [paramFrame f.params] (Env.setMany (fun _ => none) (tensorParams f.params) args)
                 { used := (tensorParams f.params).reverse, next := 0, castable := [] } := by
-              refine ⟨hL, noAttrBind_paramFrame _, (fun n hn => by cases hn), ?_, ?_, ?_⟩
+              refine ⟨hL, noAttrBind_paramFrame _ hnames hσ, (fun n hn => by cases hn), ?_, ?_, ?_⟩
               · intro x pv hx
                 rw [hrelst] at hx
                 cases hev : Env.setMany (fun _ => none) (tensorParams f.params) args x with
                 | none => simp [hev] at hx
-                | some v => simp only [hev, Option.map_some] at hx; cases hx; exact ⟨v, rfl⟩
+                | some v => simp only [hev, Option.map_some] at hx; cases hx; exact fun _ => ⟨v, rfl⟩
               · intro x pv hx
                 obtain ⟨_, hx⟩ := restrict_some.mp hx
                 rw [hrelst] at hx
@@ -3138,7 +3176,7 @@ theorem convert_correct_via (S : Sem V) {f : Func} {g : Graph}
                 simp only [List.mem_singleton] at hfr
                 subst hfr
                 exact setMany_defined _ _ _ x (by simpa using hlen.symm) (paramFrame_key _ x n hm)
-            obtain ⟨G, env', ev, hm⟩ := hsim (freeOf_paramFrame _ _ hattr) hinv hb he hc
+            obtain ⟨G, env', ev, hm⟩ := hsim (freeOf_paramFrame _ _ hattr hPy) hinv hb he hc
             refine ⟨G, ?_⟩
             unfold evalGraph
             simp only [hlen, if_true, ev]
@@ -3150,17 +3188,20 @@ theorem convert_correct_via (S : Sem V) {f : Func} {g : Graph}
 The graph may need more evaluation fuel than the Python run (one unit per nesting level plus the trip
 count), so the conclusion is for some fuel; by `evalNodes_mono` it then holds for every larger one. -/
 theorem convert_correct_for (S : Sem V) (hConst : ∀ l, ∃ c, constOf S l = some c)
-    (hId : ∀ v, S.op "" "Identity" [some v] [] = some [v]) (hT : S.truth (S.ofBool true) = some true)
+    (hId : ∀ v, S.op "" "Identity" [some v] [] = some [v])
+    (hTL : ∀ l c b, constOf S l = some c → truthPV S (.py l) = some b → S.truth c = some b) (hT : S.truth (S.ofBool true) = some true)
     (hNat : ∀ k c, constOf S (.int k) = some c → S.natOf c = some k.toNat)
     (hNot : ∀ v bk, S.truth v = some bk → ∃ w, S.op "" "Not" [some v] [] = some [w] ∧ S.truth w = some (!bk))
     (hAnd : ∀ x y yb, S.truth y = some yb → ∃ w, S.op "" "And" [some x, some y] [] = some [w] ∧
       (yb = false → S.truth w = some false) ∧ (yb = true → S.truth w = S.truth x))
     {f : Func} {g : Graph}
     (hil : forLine f.body = true) (hattr : ∀ p, p ∈ attrParams f.params → p ∉ targetsBlock f.body)
+    (hσ : ∀ x l, S.attrLit x = some l → ∃ ty, Param.attr x ty ∈ f.params ∧ AttrVal S x ty l)
+    (hPy : ∀ x, x ∈ S.pyVars → x ∉ targetsBlock f.body)
     (hnames : (f.params.map Param.name).Nodup) (h : convert f = .ok g)
     {fuel : Nat} {args vs : List V} (he : evalFunc S fuel f args = some vs) :
     ∃ G, evalGraph S G g args = some vs :=
-  convert_correct_via S hattr hnames h he
-    (fun hfree hinv hb he' hc => convTop_for_sim S fuel hConst hId hT hNat hNot hAnd f.body _ hil hfree hinv hb he' hc)
+  convert_correct_via S hattr hσ hPy hnames h he
+    (fun hfree hinv hb he' hc => convTop_for_sim S fuel hConst hId hTL hT hNat hNot hAnd f.body _ hil hfree hinv hb he' hc)
 
 end OV.C01
